@@ -4,6 +4,7 @@ and atomicity (C19) oracles can all be driven by the same histories.
 """
 import collections
 import copy
+import operator
 import datetime
 import decimal
 
@@ -1048,9 +1049,30 @@ class MiscGenerator:
     def __init__(self, r):
         self.r = r
 
+    def arith_op(self, root):
+        """In-place arithmetic (and explicit parenthesising) on a number expression that sits somewhere inside the document."""
+        r = self.r
+        es = [(p, m) for p, m in walker.walk(root) if isinstance(m, models.NumberExpr)]
+        if not es:
+            return None
+        p, e = r.choice(es)
+        what = r.choice(['*=', '/=', '+=', '-=', 'wrap', '*=expr'])
+        if what == 'wrap':
+            return Op('arith:wrap', f'{p}.wrap_with_parenthesis()', root, '$', lambda: [e], e.wrap_with_parenthesis, inplace_ids=[id(e)])
+        if what == '*=expr':
+            other = models.NumberExpr.from_value(D(r.randint(2, 9)))
+            other += r.randint(1, 3)
+            return Op('arith:*=expr', f'{p} *= <free expression {common.pr(other)!r}>', root, '$', lambda: [e], lambda: operator.imul(e, other),
+                      inplace_ids=[id(e)])
+        c = r.choice([2, 3, D('0.5'), D('-1')])
+        fn = {'*=': operator.imul, '/=': operator.itruediv, '+=': operator.iadd, '-=': operator.isub}[what]
+        return Op('arith:' + what, f'{p} {what} {c}', root, '$', lambda: [e], lambda: fn(e, c), inplace_ids=[id(e)])
+
     def next_op(self, root, kinds=('token', 'spacing', 'claim')):
         r = self.r
         kind = r.choice(kinds)
+        if kind == 'arith':
+            return self.arith_op(root)
         store = root.token_store
         if kind == 'token':
             toks = [t for t in store if hasattr(type(t), 'value')]
